@@ -5,6 +5,7 @@ import (
 	"bytes"
 	"encoding/json"
 	"fmt"
+	"hash/fnv"
 	"os"
 	"strings"
 	"sync"
@@ -17,6 +18,7 @@ import (
 
 	"verif/internal/gx"
 	"verif/internal/ref"
+	"verif/internal/vet"
 	"verif/internal/vrt"
 )
 
@@ -79,6 +81,16 @@ var frontEnds = []frontEnd{
 		_, err := p.ParseReader(iotest.OneByteReader(bytes.NewReader(d)))
 		return err
 	}},
+	// instances with a history of earlier calls (internal/vet)
+	{"oj.Parser(veteran).Parse", func(d []byte) error { _, err := vet.OjParser().Parse(d); return err }},
+	{"oj.Parser(veteran).ParseReader", func(d []byte) error { _, err := vet.OjParser().ParseReader(bytes.NewReader(d)); return err }},
+	{"oj.Tokenizer(veteran).Parse", func(d []byte) error {
+		t := vet.OjTokenizer()
+		t.OnlyOne = true
+		return t.Parse(d, &oj.ZeroHandler{})
+	}},
+	{"gen.Parser(veteran).Parse", func(d []byte) error { _, err := vet.GenParser().Parse(d); return err }},
+	{"gen.Parser(veteran).ParseReader", func(d []byte) error { _, err := vet.GenParser().ParseReader(bytes.NewReader(d)); return err }},
 }
 
 // Run is the property: every front-end accepts iff the reference does.
@@ -128,7 +140,16 @@ func Run(cs Case, c *vrt.Ctx) {
 		c.Tag("dead-byte:" + byteClass(body[v.DeadAt]))
 	}
 	c.Sample(map[string]any{"input": string(data), "want_accept": want, "end_state": v.EndState, "dead_at": v.DeadAt})
+	vh := fnv.New32a()
+	_, _ = vh.Write(data)
+	veterans := vh.Sum32()%8 == 0 // the veteran instances cost a history of calls each
+	if veterans {
+		c.Class("veteran-instances")
+	}
 	for _, fe := range frontEnds {
+		if !veterans && strings.Contains(fe.name, "(veteran)") {
+			continue
+		}
 		var err error
 		pv, stack := vrt.Catch(func() { err = fe.f(append([]byte(nil), data...)) })
 		if pv != nil {
